@@ -617,6 +617,10 @@ def _asnp(v):
 
 
 def dot(a, b):
+    if isinstance(a, SArr) and a.ndim == 0:
+        a = a.flat()[0]
+    if isinstance(b, SArr) and b.ndim == 0:
+        b = b.flat()[0]
     if not _isarr(a) or not _isarr(b):
         # scalar * array
         if _isarr(a):
